@@ -120,7 +120,7 @@ def run_once(c, stop_after=None):
     sim = Simulation(end_time=Instant.from_seconds(1000), entities=[lsm, wal, w])
     for i, (t, op) in enumerate(c["ops"]):
         sim.schedule(Event(time=Instant(t), event_type="op", target=w, context={"op": op, "oid": i}))
-    _, verdict = run_bounded(sim)
+    _, verdict = run_bounded(sim, wall_s=600.0)
     if stop_after is not None and st["crash"] is None:
         do_crash()                      # crash after the last event
     return log, st["crash"], verdict
@@ -155,11 +155,25 @@ def encode_durable(c, obs):
                  list(range(c["nkeys"])), steps))
 
 
+CRASH_POINTS = [0]
+
+
 def oracle_durable(c, obs):
+    """Admissible value of a key after crash + recovery: the value of a write W to it that had started before the
+    crash and is not superseded, i.e. there is no DURABLE write to the key (sequence number <= synced_up_to at the
+    crash instant) that began after W completed; 'absent' only if no durable write to the key exists.  Writes that
+    overlap in time may be applied in either order, exactly as in the overlap clause of C14."""
+    CRASH_POINTS[0] += len(obs["crashes"])
     if obs["verdict"] != "ok":
         return [dict(clause="durable: run terminates", verdict=obs["verdict"])]
     log = obs["log"]
     seq_of, nxt = {}, 1
+    start_t, done_pos, done_t = {}, {}, {}
+    for pos, (kind, oid, t, payload, snap, ws) in enumerate(log):
+        if kind == "start":
+            start_t[oid] = t
+        if payload[0] == "done":
+            done_pos[oid], done_t[oid] = pos, t
     fails = []
     for k, ((kind, oid, t, payload, snap, ws), cr) in enumerate(zip(log, obs["crashes"]), 1):
         if kind == "start":
@@ -169,28 +183,33 @@ def oracle_durable(c, obs):
         if cr["vals"] != cr["vals2"] or cr["m1"] != cr["m2"]:
             fails.append(dict(clause="durable: recovering twice gives the same state as recovering once", crash_after=k))
         for key in range(c["nkeys"]):
-            writes = sorted((seq_of[o], c["ops"][o][1]) for o in seq_of if c["ops"][o][1][1] == key)
-            dur = [w for w in writes if w[0] <= synced]
-            floor = dur[-1][0] if dur else 0
-            allowed = [(w[1][2] if w[1][0] == "put" else None) for w in writes if w[0] >= floor]
-            if not dur:
+            writes = [o for o in seq_of if c["ops"][o][1][1] == key]
+            durable = [o for o in writes if seq_of[o] <= synced]
+
+            def completed_before(o, o2):
+                return o in done_pos and done_pos[o] < k and done_t[o] < start_t[o2]
+            allowed = [(c["ops"][o][1][2] if c["ops"][o][1][0] == "put" else None) for o in writes
+                       if not any(completed_before(o, o2) for o2 in durable)]
+            if not durable:
                 allowed.append(None)
             got = cr["vals"][key]
             if got not in allowed:
-                known = [(w[1][2] if w[1][0] == "put" else None) for w in writes]
+                known = [(c["ops"][o][1][2] if c["ops"][o][1][0] == "put" else None) for o in writes]
                 f = dict(clause="durable: a value that was never written appears" if got not in known + [None]
                          else "durable: every write whose WAL sync completed before the crash is readable with its latest durable value",
                          crash_after=k, key=key, got=got, allowed=allowed, synced_up_to=synced)
-                # mechanism: the latest durable write's log entry was truncated although it was never flushed
-                if dur:
-                    lw = dur[-1]
-                    in_wal = any(e[0] == lw[0] for e in cr["pre"]["wal"]["entries"])
-                    val = lw[1][2] if lw[1][0] == "put" else "T"
+                # mechanism: the log entry of a durable, unsuperseded write was truncated although the write was never flushed
+                for o in sorted(durable, key=lambda o: -seq_of[o]):
+                    if any(completed_before(o, o2) for o2 in durable):
+                        continue
+                    in_wal = any(e[0] == seq_of[o] for e in cr["pre"]["wal"]["entries"])
+                    val = c["ops"][o][1][2] if c["ops"][o][1][0] == "put" else "T"
                     in_sst = any([key, val] in t for lvl in cr["pre"]["lsm"]["levels"] for t in lvl)
                     if not in_wal and not in_sst:
                         f["mechanism"] = "wal-truncated-past-unflushed"
                         f["what"] = ("_flush_memtable truncates the WAL at next_sequence-1 after its write delay: entries of synced writes that "
                                      "went into the newer memtable (or were still in flight) are discarded, so a crash loses acknowledged writes")
+                    break
                 fails.append(f)
                 break
     return fails[:3]
@@ -227,15 +246,17 @@ PROOF_FILES = ["C14/Model.v", "C14/LsmProofs.v", "C14/SeqProofs.v", "C15/Model.v
 def run(ctx):
     from concurrent.futures import ThreadPoolExecutor
     ctx.prove(PROOF_FILES, allowed_axioms=(), trusted_base=TRUSTED)
-    n = ctx.n(60, 400)
+    n = ctx.n(60, 250)
     with ThreadPoolExecutor(max_workers=2) as pool:
         pre = Pre(ctx, FAMILIES[0], n, pool, pool_above=20)
         stats = [run_family(pre, pre.fam, n)]
     merge_stats(ctx, stats, "random put/delete workloads (2-9 writes, 2-3 keys, concurrent writers on a grid landing inside WAL write/sync, "
                             "flush and compaction delays), three sync policies, memtable size 1-4; crash at EVERY event index of every workload; "
                             "non-trivial = some crash point inside a flush; distinct by JSON of the input")
+    ctx.coverage["crash_points"] = CRASH_POINTS[0]
     ctx.finish_obligations()
     ctx.assumptions += [
+        "durable_at_rest / durable_at_rest_prefix are proved for workloads whose operations do not overlap (crash between operations), for all three sync policies",
         "the full statement (any crash point) is refuted on the faithful model (c15_durable_any_crash_point_refuted): finding C15-wal-truncated-past-unflushed",
         "crash while other generators are suspended: only the state at the crash instant is checked (the generators that survive a crash are not resumed)",
     ]
